@@ -158,3 +158,33 @@ fn k19_display_names() {
     assert!(r.is_ok());
     assert!(name_is(&buf, NAMES[k].1));
 }
+
+/// the type code of a FILE header (.shp or .shx, bytes 32..36, little endian): `Header::read_from` accepts exactly
+/// the 14 codes and reports every other 32-bit value as InvalidShapeType carrying that value (all 2^32 values;
+/// the rest of the header is symbolic too; loops: the 20-byte skip copy, unwinding assertions on)
+#[kani::proof]
+#[kani::unwind(24)]
+fn k19_header_type_code() {
+    let mut bytes: [u8; 100] = kani::any();
+    bytes[0] = 0x00;
+    bytes[1] = 0x00;
+    bytes[2] = 0x27;
+    bytes[3] = 0x0a;
+    let c = i32::from_le_bytes([bytes[32], bytes[33], bytes[34], bytes[35]]);
+    let mut src: &[u8] = &bytes;
+    match crate::header::Header::read_from(&mut src) {
+        Ok(h) => {
+            assert!(valid(c));
+            assert!(h.shape_type as i32 == c);
+        }
+        Err(Error::InvalidShapeType(v)) => {
+            assert!(!valid(c));
+            assert!(v == c);
+        }
+        Err(_) => {
+            assert!(false);
+        }
+    }
+    kani::cover!(valid(c));
+    kani::cover!(!valid(c));
+}
